@@ -107,7 +107,7 @@ func genConc9(prop string, seed uint64, tier string) Scenario {
 			if o.K == "frame" {
 				seen[o.T]++
 				if seen[o.T] == count[o.T]/2+1 {
-					out = append(out, Op{K: "pause", T: o.T, N: c.PurgeMin + 1}, Op{K: "frame", T: o.T, P: 9, M: r.n(4), I: r.n(16), X: 1})
+					out = append(out, Op{K: "pause", T: o.T, N: c.PurgeMin}, Op{K: "frame", T: o.T, P: 9, M: r.n(4), I: r.n(16), X: 1})
 				}
 			}
 			out = append(out, o)
@@ -359,7 +359,9 @@ func runConc9(e *exec) {
 			}
 		case "pause":
 			pr["silence_longer_than_purge_deadline"]++
-			simrt.Sleep(int64(time.Duration(o.N) * time.Minute))
+			// ... by a little less than N minutes: the burst that follows waits for the next minute
+			// boundary, which then is, more often than not, the very tick at which purge deletes
+			simrt.Sleep(int64(time.Duration(o.N)*time.Minute - 20*time.Second))
 		case "fault":
 			pr["fault"]++
 			switch o.P % 3 {
